@@ -6,6 +6,7 @@ import (
 	"math/rand"
 	"os"
 	"path/filepath"
+	"sort"
 	"strconv"
 	"strings"
 )
@@ -431,6 +432,56 @@ func checkC18(c *Check) {
 				args = []Expr{sl("x"), nested}
 			}
 			add(b.finish(fmt.Sprintf("nested-command-argument/%s/%s", inner.name, pos), ExprStmt{AppCall{[]AppStage{stage(b, "p_rec", args...)}}}, pr(sl("done"))))
+		}
+	}
+	// several command calls used as values in one expression list: each keeps its own output
+	{
+		say := func(b *c18Builder, out string, code int) Expr {
+			return AppCall{[]AppStage{stage(b, "p_say", hx(out), sl(strconv.Itoa(code)))}}
+		}
+		tagged := func(b *c18Builder, out string) Expr {
+			return AppCall{[]AppStage{stage(b, "p_say", hx(out), sl("0")), stage(b, "p_tagA")}}
+		}
+		mk := map[string]func(b *c18Builder) []Stmt{
+			"two-in-argument-list": func(b *c18Builder) []Stmt {
+				return []Stmt{ExprStmt{AppCall{[]AppStage{stage(b, "p_rec", say(b, "first", 0), say(b, "second  word", 3))}}}}
+			},
+			"three-in-argument-list": func(b *c18Builder) []Stmt {
+				return []Stmt{ExprStmt{AppCall{[]AppStage{stage(b, "p_rec", say(b, "one", 1), sl("lit"), tagged(b, "two\n"), say(b, "", 0), say(b, "four", 0))}}}}
+			},
+		}
+		mk["two-in-captured-pipeline"] = func(b *c18Builder) []Stmt {
+			return []Stmt{VarDecl{Names: []string{"o", "e", "code"}, Short: true, Values: []Expr{AppCall{[]AppStage{stage(b, "p_rec", say(b, "left", 0), say(b, "right side", 2)), stage(b, "p_say", hx("from say\n"), say(b, "7", 0)), stage(b, "p_tagA", say(b, "4", 1))}}}}, pr(framed(vr("o")), vr("code"))}
+		}
+		mk["two-in-each-stage"] = func(b *c18Builder) []Stmt {
+			return []Stmt{ExprStmt{AppCall{[]AppStage{stage(b, "p_rec", say(b, "s1 a", 0), say(b, "s1 b", 0)), stage(b, "p_rec2", say(b, "s2 a", 3), tagged(b, "s2 b"))}}}}
+		}
+		mk["same-command-twice"] = func(b *c18Builder) []Stmt {
+			return []Stmt{ExprStmt{AppCall{[]AppStage{stage(b, "p_rec", say(b, "same", 0), say(b, "same", 0), say(b, "other", 0), say(b, "same", 0))}}}}
+		}
+		keys := []string{}
+		for k := range mk {
+			keys = append(keys, k)
+		}
+		sort.Strings(keys)
+		for _, k := range keys {
+			for _, inFunc := range []bool{false, true} {
+				b := newC18()
+				body := mk[k](b)
+				if inFunc {
+					funcs, rest := []Stmt{}, []Stmt{}
+					for _, st := range body {
+						if _, isFn := st.(FuncDecl); isFn {
+							funcs = append(funcs, st)
+						} else {
+							rest = append(rest, st)
+						}
+					}
+					add(b.finish(fmt.Sprintf("several-calls-as-values/%s/func", k), append(append(funcs, fn("run", nil, nil, rest...)), callS("run"), callS("run"), pr(sl("done")))...))
+				} else {
+					add(b.finish(fmt.Sprintf("several-calls-as-values/%s/top", k), append(body, pr(sl("done")))...))
+				}
+			}
 		}
 	}
 	// two captures in a row and capture used in expressions
